@@ -107,7 +107,7 @@ type sink struct {
 	completed int64 // callbacks that have passed the gate
 
 	findings []finding
-	trace    []string
+	trace    []rec
 
 	nNew, nUpd, nDel, nCallbacks, nStatus int64
 	lastStatus                             api.SyncStatus
@@ -123,9 +123,24 @@ func newSink() *sink {
 
 const maxTrace = 600
 
+// rec is a lazily formatted trace record (formatting every record of every case costs more than the
+// code under test).
+type rec struct {
+	f string
+	a []any
+}
+
+func render(l []rec) []string {
+	out := make([]string, len(l))
+	for i, r := range l {
+		out[i] = fmt.Sprintf(r.f, r.a...)
+	}
+	return out
+}
+
 func (s *sink) tr(format string, a ...any) {
 	if len(s.trace) < maxTrace {
-		s.trace = append(s.trace, fmt.Sprintf(format, a...))
+		s.trace = append(s.trace, rec{format, a})
 	}
 }
 
@@ -222,7 +237,8 @@ type driver struct {
 	c    *harness.Case
 	d    *dedupebuffer.DedupeBuffer
 	s    *sink
-	ops  []string
+	ops  []rec
+	fp   uint64 // fingerprint of the generated history
 	mode int
 
 	// model
@@ -238,7 +254,14 @@ type driver struct {
 
 func (dr *driver) op(format string, a ...any) {
 	if len(dr.ops) < maxTrace {
-		dr.ops = append(dr.ops, fmt.Sprintf(format, a...))
+		dr.ops = append(dr.ops, rec{format, a})
+	}
+	dr.fp = dr.fp*1099511628211 + uint64(len(format))
+}
+
+func (dr *driver) mix(sv string) {
+	for i := 0; i < len(sv); i++ {
+		dr.fp = (dr.fp ^ uint64(sv[i])) * 1099511628211
 	}
 }
 
@@ -253,6 +276,11 @@ func (dr *driver) feedUpdates(us []api.Update) {
 	}
 	for _, u := range us {
 		dr.op("feed %v=%v type=%v", u.Key, u.Value, u.UpdateType)
+		if sv, ok := u.Value.(string); ok {
+			dr.mix(sv)
+		} else {
+			dr.fp = dr.fp*31 + 7 + uint64(u.UpdateType)
+		}
 	}
 	dr.fedUpdates += int64(len(us))
 	dr.d.OnUpdates(us)
@@ -273,19 +301,28 @@ func (dr *driver) restart() {
 	dr.connView = map[int]string{}
 }
 
-// sinkStep lets at most one sink callback through.  Pacing only.
+// sinkStep lets at most one sink callback through.  Pacing only: if the sink is not blocked in a
+// callback within a short bounded wait (queue probably empty) the step is skipped.
 func (dr *driver) sinkStep() {
 	s := dr.s
 	dr.steps++
-	deadline := time.Now().Add(400 * time.Microsecond)
 	s.mu.Lock()
-	for !s.blocked {
-		s.mu.Unlock()
-		if time.Now().After(deadline) {
+	defer s.mu.Unlock()
+	if !s.blocked {
+		expired := false
+		t := time.AfterFunc(300*time.Microsecond, func() {
+			s.mu.Lock()
+			expired = true
+			s.cond.Broadcast()
+			s.mu.Unlock()
+		})
+		for !s.blocked && !expired {
+			s.cond.Wait()
+		}
+		t.Stop()
+		if !s.blocked {
 			return
 		}
-		time.Sleep(20 * time.Microsecond)
-		s.mu.Lock()
 	}
 	dr.stepsBlocked++
 	target := s.completed + 1
@@ -294,7 +331,6 @@ func (dr *driver) sinkStep() {
 	for s.completed < target {
 		s.cond.Wait()
 	}
-	s.mu.Unlock()
 }
 
 func (dr *driver) setGate(open bool) {
@@ -568,7 +604,7 @@ func run(c *harness.Case) {
 		got[k] = v
 	}
 	findings := append([]finding(nil), s.findings...)
-	trace := append([]string(nil), s.trace...)
+	trace := append([]rec(nil), s.trace...)
 	nNew, nUpd, nDel, nCb, nSt, lastStatus := s.nNew, s.nUpd, s.nDel, s.nCallbacks, s.nStatus, s.lastStatus
 	s.mu.Unlock()
 	timer.Stop()
@@ -594,7 +630,7 @@ func run(c *harness.Case) {
 	c.Distinct("pace_mode", dr.mode)
 
 	witness := func(extra map[string]any) map[string]any {
-		m := map[string]any{"mode": dr.mode, "nKeys": dr.nKeys, "nConn": nConn, "ops": dr.ops, "sink_trace": trace}
+		m := map[string]any{"mode": dr.mode, "nKeys": dr.nKeys, "nConn": nConn, "ops": render(dr.ops), "sink_trace": render(trace)}
 		for k, v := range extra {
 			m[k] = v
 		}
@@ -649,13 +685,13 @@ func run(c *harness.Case) {
 	}
 
 	if dr.restarts > 0 && (vanished > 0 || len(dr.connView) > 0) {
-		c.NonTrivial(dr.mode, dr.nKeys, nConn, dr.ops)
+		c.NonTrivial(dr.mode, dr.nKeys, nConn, dr.fp)
 	}
 	c.Distinct("final_view", fmt.Sprint(sortedVals(want)))
 	if c.Index < 8 {
 		c.Sample(map[string]any{"mode": dr.mode, "nKeys": dr.nKeys, "connections": nConn, "restarts": dr.restarts,
 			"updates_fed": dr.fedUpdates, "sink_notifications": nNew + nUpd + nDel, "vanished": vanished,
-			"first_ops": head(dr.ops)})
+			"first_ops": head(render(dr.ops))})
 	}
 }
 
@@ -693,7 +729,7 @@ func main() {
 		},
 		Cases: func(tier string) int {
 			if tier == "thorough" {
-				return 100000
+				return 50000
 			}
 			return 2000
 		},
